@@ -43,10 +43,30 @@ def lines(ctx):
     return out
 
 
+def exec_lines(ctx):
+    """the gate is the same wherever the opcode comes from: `exec <operands> OP_X` in sessions of every script version, with and
+    without the option, executed and inside an unexecuted branch"""
+    from .c16 import exec_line
+    out = []
+    for op in R.DISABLED:
+        ar = R.ARITY[op]
+        operands = [["0102", "03", "01"][:ar], ["6", "3", "1"][:ar]]
+        for sv in (0, 1, 3):
+            for z in (0, 1):
+                for fl in (R.STD, 0):
+                    for opnds in operands:
+                        out.append(exec_line(sv, fl, b"\x51", [], b"", 0, list(opnds) + ["OP_x%02x" % op], z=z, weight=(1000 if sv == 3 else None)))
+                    out.append(exec_line(sv, fl, b"\x51", [], b"", 1, ["OP_0", "OP_IF", "OP_x%02x" % op, "OP_ENDIF"], z=z, weight=(1000 if sv == 3 else None)))
+    return out
+
+
 def run(ctx):
     ls = lines(ctx)
     impl, model, spec, bad = R.three_way(ctx, "reenabled-opcodes", ls)
     R.histogram(ctx, impl, "outcomes")
+    el = exec_lines(ctx)
+    from .c16 import canon as canon16, nontrivial as nontrivial16
+    ctx.compare("reenabled-opcodes-exec", el, ctx.harness_sharded(el), ctx.driver_sharded(el, "model"), ctx.driver_sharded(el, "spec"), observable=canon16, nontrivial=nontrivial16)
     deep = ctx.driver_gen(["run", ctx.seed + 17, 3000 if ctx.tier == "quick" else 100000, 40, 1])
     R.three_way(ctx, "deep-with-z", deep)
     ctx.exhaustive = True
